@@ -77,7 +77,7 @@ CHECKS = {
                 text='One writer, 1-2 readers, an external deleter and a stepping wall clock over a simulated file system; '
                      'seeded operation histories (write with given/equal/backward timestamps, read, read_block, seek, tell, '
                      'refresh, close/reopen, external delete, clock steps; text records with \\r, \\x85, U+2028 and '
-                     'multi-byte characters) in all four modes against a list model of '
+                     'multi-byte characters; bin records handed over as bytes, bytearray, memoryview, multi-byte-item arrays or numpy buffers) in all four modes against a list model of '
                      '(file, offset, record): exactly-once in order except for whole deleted files, disk budget, newest '
                      'file kept, no overwrite of an existing file. Thorough adds file-system-call-granularity interleaving '
                      'of writer and reader under the scheduler.',
